@@ -19,7 +19,7 @@ RULE = ("Generated training FILES (bytes): entries (password, count) rendered pl
         "the real TrainerFileInput; (2) the real trainer is run on the plain, the hex and the count-prefixed rendering and the "
         "three rulesets must be byte-identical apart from the uuid/filename lines; (3) the three passes of one run yield the same "
         "sequence; (4) every junk line carries a marker that must not occur in any ruleset file. Non-trivial = the file mixes >=2 "
-        "renderings and >=1 junk line; distinct = hash of the file bytes.")
+        "renderings and >=1 junk line; distinct = hash of the file bytes. Scale part reader_long_list: 300 000 / 1.2 M ordinary lines before the first line that must be skipped, plain and count-prefixed.")
 ASSUMPTIONS = ["supported encodings are the ASCII-compatible ones", "counts are plain ASCII non-negative integers",
                "passwords do not end in CR", "a run in which the trainer does not complete (too little data for OMEN) is skipped when all renderings agree on that"]
 
